@@ -63,6 +63,44 @@ theorem blockLoop_cons_go {P : Params} {cb : Nat → CbRet} {set : Settings} {b 
   conv => lhs; unfold blockLoop; rw [h]
   rfl
 
+def LoopOut.pre (ms : List Msg) (o : LoopOut) : LoopOut := { o with msgs := ms ++ o.msgs }
+
+theorem blockLoop_cons_go_ok {P : Params} {cb : Nat → CbRet} {set : Settings} {b : Block} {r : List Block}
+    {sched sc : List Act} {a : Act} {c c' : Core} {w w' : World} {ms : List Msg} (h : stepOf sched = .go a sc)
+    (hb : scanBlock P cb set b c (tick w a) = (c', w', ms, .success)) :
+    blockLoop P cb set (b :: r) sched c w = (blockLoop P cb set r sc c' w').pre ms := by
+  rw [blockLoop_cons_go h, hb]; rfl
+
+theorem blockLoop_cons_go_err {P : Params} {cb : Nat → CbRet} {set : Settings} {b : Block} {r : List Block}
+    {sched sc : List Act} {a : Act} {c c' : Core} {w w' : World} {ms : List Msg} {e : Err} (h : stepOf sched = .go a sc)
+    (hb : scanBlock P cb set b c (tick w a) = (c', w', ms, e)) (he : e ≠ .success) :
+    blockLoop P cb set (b :: r) sched c w = ⟨c', r, sc, .success, e, w', ms⟩ := by
+  rw [blockLoop_cons_go h, hb]
+  cases e <;> first | exact absurd rfl he | rfl
+
+theorem addCands_result (P : Params) (cb : Nat → CbRet) (b : Block) (ks : List Cand) (c : Core) (w : World) :
+    (addCands P cb b ks c w).2.2.2 = .success ∨ (addCands P cb b ks c w).2.2.2 = .tooManyMatches := by
+  induction ks generalizing c w with
+  | nil => left; rfl
+  | cons k ks ih =>
+    simp only [addCands]
+    repeat' split
+    all_goals first
+      | exact ih _ _
+      | (right; rfl)
+
+theorem addCands_result_ne (P : Params) (cb : Nat → CbRet) (b : Block) (ks : List Cand) (c : Core) (w : World) :
+    (addCands P cb b ks c w).2.2.2 ≠ .blockNotReady := by
+  rcases addCands_result P cb b ks c w with h | h <;> simp [h]
+
+theorem scanBlock_result (P : Params) (cb : Nat → CbRet) (set : Settings) (b : Block) (c : Core) (w : World) :
+    (scanBlock P cb set b c w).2.2.2 ≠ .blockNotReady := by
+  simp only [scanBlock]
+  repeat' split
+  all_goals first
+    | exact addCands_result_ne _ _ _ _ _ _
+    | (simp; done)
+
 theorem blockLoop_frame (P : Params) (cb : Nat → CbRet) (set : Settings) (rest : List Block) (sched : List Act)
     (c : Core) (w : World) : Frame c (blockLoop P cb set rest sched c w).core := by
   induction rest generalizing sched c w with
